@@ -40,12 +40,25 @@ def r_block_t(ctx: RuleCtx, col: Collector):
         selfn = m.self_name(resp)
         # blocks: locals / attributes assigned from pure indexing of a parameter (double subscript = a block)
         blocks: Dict[str, ast.AST] = {}
-        for n in ast.walk(resp.node):
-            if isinstance(n, ast.Assign) and isinstance(n.value, ast.Subscript) and isinstance(n.value.value, ast.Subscript) \
-                    and _is_block_of(n.value, params):
-                for t in n.targets:
-                    if isinstance(t, (ast.Name, ast.Attribute)):
-                        blocks[norm(t)] = n.value
+        # a block may be cut in two steps (Af = A[f, ...]; Afm = Af[..., m]): count subscripts through slice-derived names
+        depth: Dict[str, int] = {p: 0 for p in params}
+        changed = True
+        while changed:
+            changed = False
+            for n in ast.walk(resp.node):
+                if isinstance(n, ast.Assign) and isinstance(n.value, ast.Subscript):
+                    e, k = n.value, 0
+                    while isinstance(e, ast.Subscript):
+                        e, k = e.value, k + 1
+                    if isinstance(e, ast.Name) and e.id in depth:
+                        for t in n.targets:
+                            if isinstance(t, (ast.Name, ast.Attribute)) and norm(t) not in params:
+                                d = depth[e.id] + k
+                                if depth.get(norm(t)) != d:
+                                    depth[norm(t)] = d
+                                    changed = True
+                                if d >= 2:
+                                    blocks[norm(t)] = n.value
         if not blocks:
             continue
         for b, src in sorted(blocks.items()):
@@ -323,6 +336,20 @@ def r_gauss_sib(ctx: RuleCtx, col: Collector):
         t = norm(w)
         if "elemnodes" in t:
             continue            # averaging weight (Strain): not an integral
+        # the quadrature weight proper: the factors of the (expanded) product that are built from the element size; a
+        # material constant folded into the same local is not part of the quadrature rule
+        from .common import expand_names
+        facs = []
+
+        def flat(e):
+            if isinstance(e, ast.BinOp) and isinstance(e.op, ast.Mult):
+                flat(e.left)
+                flat(e.right)
+            else:
+                facs.append(e)
+        flat(expand_names(f.node, w))
+        geo = sorted(norm(x) for x in facs if any(k in norm(x) for k in ("siz", "element_size")))
+        t = "*".join(geo) if geo else t
         ws.setdefault(t, []).append(c.name)
     if len(ws) == 1:
         col.ok("assembly", loops[0][1].rel, line_of(loops[0][2]), "integration weight shared", f"{list(ws)[0]} in {sorted(sum(ws.values(), []))}")
